@@ -53,11 +53,13 @@ def checkIncl (args res : List String) : Except String (Findings × String) := d
   let mut f : Findings := sameOperand "A" A A' ++ sameOperand "B" B B'
   let chars := v.toList
   if chars.length != selNames.length then throw "bad verdict vector"
+  let mut over := 0
   for (c, n) in chars.zip selNames do
-    if c != bchar exp then
+    if c == 'T' then over := over + 1   -- budget overrun of a downward selection (exponential by design): not judged
+    else if c != bchar exp then
       f := f ++ [s!"violation incl[{n}]={c} reference={bchar exp}"]
   let ne ← emptyE A
-  let tag := s!"incl={bchar exp} emptyA={bchar ne}"
+  let tag := s!"incl={bchar exp} emptyA={bchar ne} overrun={over}"
   pure (f, tag)
 
 def checkInclAll (args res : List String) : Except String (Findings × String) := do
@@ -70,7 +72,7 @@ def checkInclAll (args res : List String) : Except String (Findings × String) :
   let mut f : Findings := []
   for (c, i) in chars.zip (List.range 128) do
     if implExpl.contains i then
-      if c != bchar exp then f := f ++ [s!"violation incl[word {i}]={c} reference={bchar exp}"]
+      if c != 'T' && c != bchar exp then f := f ++ [s!"violation incl[word {i}]={c} reference={bchar exp}"]
     else
       if c != 'N' then f := f ++ [s!"violation unimplemented option word {i} answered {c} instead of NotImplementedException"]
   pure (f, s!"incl={bchar exp}")
@@ -198,28 +200,24 @@ def checkReduce (args res : List String) : Except String (Findings × String) :=
   pure (f, s!"states={A.states.length}->{R.states.length}")
 where dedupRules (rs : List Rule) : List Rule := rs.foldl (fun acc r => if acc.contains r then acc else acc ++ [r]) []
 
-def checkSim (args res : List String) : Except String (Findings × String) := do
+def checkSim (args res : List String) (up : Bool) : Except String (Findings × String) := do
   let A ← getE (args[0]? >>= parseTA?) "bad A"
   let n ← getE (args[1]? >>= String.toNat?) "bad n"
-  if !(A.states.all (· < n)) then throw "precondition: states not inside 0..n-1"
-  let dn ← kvE res "down"
-  let up ← kvE res "up"
-  let mut f : Findings := []
-  let dref := downSimRef A
-  if !isDownSimB A dref then throw "internal: downSimRef not a simulation"
-  if dn == "EXC" then f := f ++ ["violation downward-simulation threw"]
-  else
-    let d ← getE (parseRel? dn) "bad down"
-    if !relEq d dref then f := f ++ [s!"violation downward-simulation differs from the greatest one"]
-  let trimmed := allUsefulB A
-  if trimmed then
-    let uref := upSimRef A
-    if !isUpSimB A uref then throw "internal: upSimRef not a simulation"
-    if up == "EXC" then f := f ++ ["violation upward-simulation threw"]
-    else
-      let u ← getE (parseRel? up) "bad up"
-      if !relEq u uref then f := f ++ [s!"violation upward-simulation differs from the greatest one"]
-  pure (f, s!"trimmed={bchar trimmed} downpairs={dref.length}")
+  let Q := A.states
+  if !(Q.all (· < n)) || Q.length != n then throw "precondition: states are not exactly 0..n-1"
+  if up && !allUsefulB A then throw "precondition: upward simulation needs an automaton without useless states"
+  let A' ← taE res "A"
+  let mut f : Findings := sameOperand "A" A A'
+  let rel ← getE ((kv res "rel") >>= parseRel?) "bad rel"
+  let ref := if up then upSimRef A else downSimRef A
+  if !(if up then isUpSimB A ref else isDownSimB A ref) then throw "internal: reference is not a simulation"
+  let dir := if up then "upward" else "downward"
+  if !relEq rel ref then
+    let extra := rel.filter (fun p => !ref.contains p)
+    let missing := ref.filter (fun p => !rel.contains p)
+    f := f ++ [s!"violation {dir}-simulation differs from the greatest one: extra={extra} missing={missing}"]
+  let between := ref.length > Q.length && ref.length < Q.length * Q.length
+  pure (f, s!"dir={dir} between={bchar between}")
 
 def checkCompl (args res : List String) : Except String (Findings × String) := do
   let A ← getE (args[0]? >>= parseTA?) "bad A"
@@ -281,7 +279,8 @@ def dispatch (kind : String) (args res : List String) : Except String (Findings 
   | "trim" => checkTrim args res
   | "cand" => checkCand args res
   | "reduce" => checkReduce args res
-  | "sim" => checkSim args res
+  | "simdown" => checkSim args res false
+  | "simup" => checkSim args res true
   | "compl" => checkCompl args res
   | "rename" => checkRename args res
   | _ => throw s!"unknown kind {kind}"
